@@ -70,6 +70,7 @@ func init() {
 			{ID: "C05.R2", Doc: "SAFE-INDEX: every list-spine index/slice in the package lies within the current length on every input that reaches it", Run: c05SafeIndex},
 			{ID: "C05.R3", Doc: "no path ending in a panic of Insert, Replace, Get, Delete, Pop, SubList, Sort writes a list before it", Run: c05WriteBeforePanic},
 			{ID: "C05.R4", Doc: "OWN: no two containers ever share a backing array (package-wide)", Run: func(c *Ctx) { c.R.Floor("C05.R4", ownRule(c, "C05.R4"), 8) }},
+			{ID: "C05.R5", Doc: "sequence model: Add, Insert, Replace, Delete, Pop, Clear, SubList, Concat executed on a folded spine (receiver lengths 0..3, stale cells in the spare capacity, Go's append/copy/slicing semantics): the visible content afterwards is exactly the model's", Run: c05Sequence},
 			{ID: "C05.R6", Doc: "reference semantics: Get returns spine[index].getVal(); IndexOf compares getVal() with ==", Run: c05Reference},
 			{ID: "C05.R9", Doc: "NewListOf(v, n): v is normalised once, before the loop, and that one field is installed n times (n aliases of one element, not n conversions)", Run: c05ListOf},
 			{ID: "C05.R8", Doc: "Reverse moves element i to n-1-i in place (= C17.R2)", Run: func(c *Ctx) { reverseRule(c, "C05.R8") }},
@@ -604,6 +605,8 @@ func c05SafeIndex(c *Ctx) {
 			for _, cd := range a.Conds {
 				collect(cd.T)
 			}
+			collect(a.T)    // lengths mentioned by the access itself (a bound, the value of copy)
+			collect(a.Base) // and by the size a fresh container was made with
 			if !v.isRecv(a.Base) {
 				if _, isLit := a.Base.(TAddr); !isLit {
 					otherBases[key(a.Base)] = a.Base
@@ -681,6 +684,7 @@ func c05SafeIndex(c *Ctx) {
 						}
 						return
 					}
+					var hook func(Term) (int64, bool)
 					base := func(t Term) (int64, bool) {
 						if ix, ok := t.(TIndex); ok && variadic != nil && isParamTerm(ix.X, variadic) {
 							return others["#variadic"], true
@@ -689,10 +693,13 @@ func c05SafeIndex(c *Ctx) {
 							if m, ok := others[key(b)]; ok {
 								return m, true
 							}
+							if _, isLit := b.(TAddr); isLit && hook != nil {
+								return v.spineLen(b, n, others, hook) // a container made on this path: the length it was made with
+							}
 						}
 						return 0, false
 					}
-					hook := v.intHook(n, params, base)
+					hook = v.intHook(n, params, base)
 					// loop variables: enumerate iterations of every enclosing loop
 					var iterate func(li int, lvars map[types.Object]int64)
 					iterate = func(li int, lvars map[types.Object]int64) {
@@ -1012,7 +1019,7 @@ func init() {
 		Rules: []Rule{
 			{ID: "C17.R1", Doc: "Sort: kind test on element 0 <-> typed slice of that kind <-> trusted sort function on that slice <-> NewListFrom(slice) spine handed to the receiver; no kind => panic before any write; fluent return", Run: c17Sort},
 			{ID: "C17.R3", Doc: "the rebuild through NewListFrom keeps every element: the From-constructor copies element-wise without filtering (= C12.R2)", Run: func(c *Ctx) {
-				c.R.Floor("C17.R3", runAs(c, "C17.R3", c12R2, func(o *Obligation) bool { return strings.Contains(o.Construct, "NewListFrom") }), 7)
+				c.R.Floor("C17.R3", runAs(c, "C17.R3", c12R2, func(o *Obligation) bool { return strings.Contains(o.Construct, "NewListFrom") }), 1)
 			}},
 			{ID: "C17.R2", Doc: "Reverse: swaps exactly the mirrored pairs (i, n-1-i), i < n/2 (header simulated for n=0..9), by a parallel swap on the receiver's spine; no other write", Run: c17Reverse},
 		},
